@@ -482,7 +482,112 @@ impl Ctx {
     }
 }
 
+impl Ctx {
+    /// Coverage-guided stage (thorough tier): run the libFuzzer target (built by bin/check, path in
+    /// VERIF_FUZZ_BIN) with VERIF_FUZZ_PROPERTY = this property, `jobs` processes x `runs` executions from a
+    /// generated seed corpus. Oracle failures come back as replay files and are re-judged in this process.
+    pub fn run_fuzz(&self, runs: u64, jobs: usize, dispatch: &dyn Fn(&str, &Value) -> Option<Outcome>) -> Stats {
+        let mut st = Stats::default();
+        let Ok(bin) = std::env::var("VERIF_FUZZ_BIN") else {
+            st.campaigns.push(json!({"campaign": "libfuzzer", "mode": "skipped", "reason": "VERIF_FUZZ_BIN not set (fuzz target not built)"}));
+            return st;
+        };
+        let t0 = Instant::now();
+        let work = format!("{}/fuzz/work-{}-{}", self.root, self.property, std::process::id());
+        let out = format!("{}/out", work);
+        let _ = std::fs::remove_dir_all(&work);
+        let _ = std::fs::create_dir_all(&out);
+        let mut children = vec![];
+        for j in 0..jobs {
+            let corpus = format!("{}/corpus-{}", work, j);
+            let _ = std::fs::create_dir_all(&corpus);
+            // seed corpus: random byte strings of useful lengths (every byte string is a valid recipe)
+            let mut z = mix(self.seed ^ hash_str(&self.property) ^ (j as u64) << 32);
+            for k in 0..24 {
+                let len = 17 + 8 * (k % 12) * 2 + k;
+                let bytes: Vec<u8> = (0..len).map(|_| { z = mix(z); (z >> 24) as u8 }).collect();
+                let _ = std::fs::write(format!("{}/seed-{}", corpus, k), bytes);
+            }
+            let log = std::fs::File::create(format!("{}/job-{}.log", work, j)).ok();
+            let mut cmd = std::process::Command::new(&bin);
+            cmd.arg(format!("-runs={}", runs))
+                .arg(format!("-seed={}", (mix(self.seed.wrapping_add(j as u64 * 7919)) % 2_000_000_000) + 1))
+                .arg("-max_len=400")
+                .arg("-len_control=0")
+                .arg("-timeout=120")
+                .arg("-rss_limit_mb=0")
+                .arg("-malloc_limit_mb=4096")
+                .arg(format!("-artifact_prefix={}/artifact-{}-", work, j))
+                .arg(&corpus)
+                .env("VERIF_FUZZ_PROPERTY", &self.property)
+                .env("VERIF_FUZZ_OUT", &out)
+                .stdout(std::process::Stdio::null());
+            if let Some(l) = log {
+                cmd.stderr(l);
+            }
+            if let Ok(c) = cmd.spawn() {
+                children.push(c);
+            }
+        }
+        let mut abnormal = 0;
+        for mut c in children {
+            if let Ok(s) = c.wait() {
+                if !s.success() {
+                    abnormal += 1;
+                }
+            }
+        }
+        let mut total_runs = 0u64;
+        let mut cov = 0u64;
+        let mut other_crash = vec![];
+        for j in 0..jobs {
+            let txt = std::fs::read_to_string(format!("{}/job-{}.log", work, j)).unwrap_or_default();
+            for line in txt.lines() {
+                if let Some(r) = line.strip_prefix("Done ") {
+                    total_runs += r.split_whitespace().next().and_then(|x| x.parse::<u64>().ok()).unwrap_or(0);
+                }
+                if let Some(i) = line.find(" cov: ") {
+                    cov = cov.max(line[i + 6..].split_whitespace().next().and_then(|x| x.parse().ok()).unwrap_or(0));
+                }
+                if (line.contains("ERROR: libFuzzer") || line.contains("SUMMARY:")) && !txt.contains("FUZZ-VIOLATION") && other_crash.len() < 3 {
+                    other_crash.push(format!("job {}: {}", j, line));
+                }
+            }
+        }
+        // re-judge every reported case in this process
+        let mut files: Vec<String> = std::fs::read_dir(&out).map(|rd| rd.flatten().map(|e| e.path().to_string_lossy().to_string()).collect()).unwrap_or_default();
+        files.sort();
+        for f in files {
+            let Ok(txt) = std::fs::read_to_string(&f) else { continue };
+            let Ok(v) = serde_json::from_str::<Value>(&txt) else { continue };
+            let kind = v["kind"].as_str().unwrap_or("").to_string();
+            if let Some(o) = dispatch(&kind, &v["case"]) {
+                if let Verdict::Fail(fl) = o.verdict {
+                    if let Some(id) = self.known.matches_open(&self.property, &fl.signature) {
+                        *st.excluded_known.entry(id).or_insert(0) += 1;
+                    } else {
+                        st.add_failure(Failure { fail: fl, kind_tag: kind, campaign: "libfuzzer".into(), case: v["case"].clone(), size: txt.len(), replay_path: None });
+                    }
+                } else {
+                    st.internal.push(format!("libfuzzer reported {} but the case passes when re-judged", f));
+                }
+            }
+        }
+        if st.failures.is_empty() && !other_crash.is_empty() {
+            st.internal.push(format!("libfuzzer stopped abnormally without an oracle failure: {:?}", other_crash));
+        }
+        st.evaluations += total_runs;
+        st.campaigns.push(json!({"campaign": "libfuzzer", "mode": "coverage-guided", "jobs": jobs, "runs_per_job": runs, "executions": total_runs, "edge_coverage": cov, "abnormal_exits": abnormal, "wall_s": t0.elapsed().as_secs_f64()}));
+        let _ = std::fs::remove_dir_all(&work);
+        st
+    }
+}
+
 pub fn write_replay(root: &str, property: &str, f: &Failure) -> String {
+    write_replay_in(&format!("{}/replays", root), property, f)
+}
+
+pub fn write_replay_in(dir: &str, property: &str, f: &Failure) -> String {
     let body = json!({
         "property": property,
         "kind": f.kind_tag,
@@ -492,8 +597,7 @@ pub fn write_replay(root: &str, property: &str, f: &Failure) -> String {
     });
     let txt = serde_json::to_string_pretty(&body).unwrap();
     let h = hash_bytes(serde_json::to_string(&f.case).unwrap().as_bytes());
-    let dir = format!("{}/replays", root);
-    let _ = std::fs::create_dir_all(&dir);
+    let _ = std::fs::create_dir_all(dir);
     let path = format!("{}/{}-{:012x}.json", dir, property, h & 0xffff_ffff_ffff);
     let _ = std::fs::write(&path, txt);
     path
